@@ -142,6 +142,24 @@ def gen_server(tree):
                 and n.value.id.endswith("exposed_member_cache")]
         need(all(isinstance(x.slice, ast.Name) and x.slice.id == "cache_key" for x in subs),
              "_get_exposed_members: the cache is indexed by something other than cache_key")
+    # the result is put into the cache only after the dir()/getattr scan: no partially filled entry is ever visible
+    stored_after_scan = True
+    if uses_cache:
+        top = list(gm.body)
+        loops = [i for i, st in enumerate(top) if isinstance(st, ast.For)]
+        need(len(loops) == 1, "_get_exposed_members: expected exactly one top-level scan loop, found %d" % len(loops))
+        def stores(node):
+            return [n for n in ast.walk(node) if isinstance(n, (ast.Assign, ast.AugAssign, ast.AnnAssign))
+                    and any(isinstance(t, ast.Subscript) and isinstance(t.value, ast.Name) and t.value.id.endswith("exposed_member_cache")
+                            for t in (n.targets if isinstance(n, ast.Assign) else [n.target]))] + \
+                   [n for n in ast.walk(node) if isinstance(n, ast.Call) and isinstance(n.func, ast.Attribute)
+                    and isinstance(n.func.value, ast.Name) and n.func.value.id.endswith("exposed_member_cache")
+                    and n.func.attr in ("setdefault", "update", "__setitem__")]
+        where = [i for i, st in enumerate(top) if stores(st)]
+        need(where, "_get_exposed_members: no store into the member cache found")
+        stored_after_scan = all(i > loops[0] for i in where)
+    out += "\n(* _get_exposed_members stores its result in the cache only after the scan loop has completed *)\n"
+    out += "Definition metadata_cache_stored_after_scan : bool := %s.\n" % cbool(stored_after_scan)
     out += "\n(* _get_exposed_members: the metadata cache is keyed by the class object itself (not by a name) *)\n"
     out += "Definition metadata_cache_keyed_by_class : bool := %s.\n" % cbool(keyed_by_class)
     # how Daemon.handleRequest hands the arguments of __getattr__/__setattr__ requests to the property helpers
